@@ -194,7 +194,26 @@ def _mk_explicit(cached):
 
 _ns["c_xscalar"] = _mk_explicit(True)
 _ns["u_xscalar"] = _mk_explicit(False)
-EXTRA_PROPS = {"xscalar": f_scalar, "dynchild": f_dynchild}
+EXTRA_PROPS = {"xscalar": f_scalar, "dynchild": f_dynchild, "tname": f_scalar}
+
+
+# properties with ordinary names that start with one of the letters of "_get_" (total, text): the cache slot of a
+# cached property is "_traits_cache_" + <name>, whatever the name starts with
+def _get_total(self):
+    bump(self, "total")
+    return f_scalar(self)
+
+
+def _get_text(self):
+    bump(self, "text")
+    return f_scalar(self)
+
+
+_ns["total"] = Property(Int, observe="value")
+_ns["_get_total"] = cached_property(_get_total)
+_ns["text"] = Property(Int, observe="value")
+_ns["_get_text"] = _get_text
+ATTRS = {("tname", True): "total", ("tname", False): "text"}
 
 
 def f_other(o):
@@ -258,10 +277,13 @@ PATHS = {
     "nested": [["child", "kids", "*", "value"]], "kidchild": [["kids", "*", "child", "value"]],
     "multi": [["value"], ["child", "value"], ["nums", "*"]],
     "mitems": [["m", "*"]], "sitems": [["s", "*"]], "xscalar": [["value"]], "redecl": [["other"]],
-    "area": [["value"], ["other"]], "maybe": [["value"]], "dynchild": [["child", "extra"]],
+    "area": [["value"], ["other"]], "maybe": [["value"]], "dynchild": [["child", "extra"]], "tname": [["value"]],
 }
 # (the "raw" and "chain" shapes have their own view below)
 TCODE = {"value": 1, "other": 2, "child": 3, "kids": 4, "m": 5, "s": 6, "nums": 7, "extra": 8}
+
+
+EMPTY = {"kids": list, "nums": list, "m": dict, "s": set}
 
 
 def members(c):
@@ -304,6 +326,9 @@ def walk(obj, path, idx, matched, view):
         walk(val, path[1:], idx, matched, view)
         return
     view += [TCODE[name], idx.get(id(obj), -9)]
+    if val is None and name in EMPTY:
+        # deleted / reset and not yet re-created: the trait's value is its (empty) default
+        val = EMPTY[name]()
     walk(val, path[1:], idx, matched, view)
 
 
@@ -326,7 +351,7 @@ def run_case(case):
     added = case.get("added")                # "instance" / "class": the property is added with add_trait / add_class_trait
     redecl = bool(case.get("redecl"))        # prop "scalar", cached: c_scalar redeclared with observe="other"
     RootCls = RootRedecl if redecl else RootSub if sub else RootDynChild if pname == "dynchild" else Root
-    attr = ("u_" if (sub or not cached) else "c_") + pname
+    attr = ATTRS.get((pname, cached)) or ("u_" if (sub or not cached) else "c_") + pname
     if added:
         # listed finding: has_traits.add_trait / add_class_trait ignore the `observe` metadata of a Property
         attr = "d_scalar"
@@ -514,6 +539,13 @@ def run_case(case):
                     touched = False
                     o.remove_trait("extra")
                     o.add_trait("extra", Int())
+                elif k == "Reset":
+                    # ["Reset", i, trait, how]: obj.reset_traits([trait]) / del obj.trait: back to the default value
+                    touched = ("t", id(o), op[2]) in matched
+                    if op[3] == 0:
+                        o.reset_traits([op[2]])
+                    elif op[2] in o.__dict__:
+                        delattr(o, op[2])
                 elif k == "SetRaw":
                     touched = ("t", id(o), "raw") in matched
                     o.raw = RAW_VALUES[op[2]]()
@@ -568,6 +600,14 @@ def run_case(case):
                         c.update({kk: pool[j] for kk, j in a[0]})
                     elif k == "SAdd":
                         c.add(pool[a[0]])
+                    elif k == "SInter":
+                        c.intersection_update(*[[pool[j] for j in arg] for arg in a[0]])
+                    elif k == "SDiff":
+                        c.difference_update(*[[pool[j] for j in arg] for arg in a[0]])
+                    elif k == "SUpdate":
+                        c.update(*[[pool[j] for j in arg] for arg in a[0]])
+                    elif k == "SSym":
+                        c.symmetric_difference_update([pool[j] for j in a[0]])
                     elif k == "SDiscard":
                         c.discard(pool[a[0]])
                     else:
